@@ -365,8 +365,12 @@ def main():
     L.append("Definition event_insert_guarded_by_has_user : bool := %s." % b(ev_ok))
     L.append("Definition allowed_never_shrinks : bool := %s." % b(no_shrink))
     os.makedirs(out, exist_ok=True)
-    with open(os.path.join(out, "OutboundTable.v"), "w") as f:
-        f.write("\n".join(L) + "\n")
+    text = "\n".join(L) + "\n"
+    target = os.path.join(out, "OutboundTable.v")
+    # an unchanged table keeps its timestamp (and the compiled proofs that depend on it)
+    if not (os.path.exists(target) and read(target) == text):
+        with open(target, "w") as f:
+            f.write(text)
     print("OutboundTable.v: %d request kinds" % len(variants))
 
 
